@@ -47,6 +47,15 @@ META = {
             "atom containing a bencode syntax byte (0-9 : e i l d -) or a non-ASCII byte",
 }
 
+
+def report(ctx: Ctx, what: str, replay_obj, key=None) -> None:
+    """ctx.violation, but at most 50 replay files per run (the rest is counted in the evidence)."""
+    if key is not None or len(ctx.violations) < 50:
+        ctx.violation(what, replay_obj, key=key)
+    else:
+        ctx.cov["violations_not_written"] = ctx.cov.get("violations_not_written", 0) + 1
+
+
 ERR = [-1]
 SYNTAX = set(b"0123456789:eild-")
 
@@ -280,18 +289,18 @@ def check_case(ctx: Ctx, x, spec_enc, spec_dec, source: str, hashes: dict) -> No
         ctx.distinct(x)
     rep = {"source": source, "x": x, "spec_enc": spec_enc, "real_enc": enc, "exception": exc}
     if (enc == ERR) != (spec_enc == ERR):
-        ctx.violation(("bencode accepted a structure the property says must be rejected"
+        report(ctx, ("bencode accepted a structure the property says must be rejected"
                        if spec_enc == ERR else f"bencode rejected an encodable structure ({exc})")
                       + f": {obj!r}", rep)
         return
     if enc == ERR:
         return
     if enc != spec_enc:
-        ctx.violation(f"bencode({obj!r}) = {bytes(enc)!r}, Bencode.tla Enc = {bytes(spec_enc)!r}", rep)
+        report(ctx, f"bencode({obj!r}) = {bytes(enc)!r}, Bencode.tla Enc = {bytes(spec_enc)!r}", rep)
         return
     dec = real_dec(enc)
     if dec != spec_dec:
-        ctx.violation(f"bdecode(bencode(x)) = {dec} but the canonical form of x is {spec_dec} (x = {obj!r})",
+        report(ctx, f"bdecode(bencode(x)) = {dec} but the canonical form of x is {spec_dec} (x = {obj!r})",
                       dict(rep, real_dec=dec, spec_dec=spec_dec))
     check_hash(ctx, obj, enc, hashes, rep)
 
@@ -303,10 +312,10 @@ def check_hash(ctx: Ctx, obj, enc, hashes: dict, rep) -> None:
     h = hash_struct(obj)
     key = bytes(enc)
     if hashes.setdefault(("e", key), h) != h:
-        ctx.violation(f"hash_struct differs for two structures with the same encoding {key!r}", rep)
+        report(ctx, f"hash_struct differs for two structures with the same encoding {key!r}", rep)
     other = hashes.setdefault(("h", h), key)
     if other != key:
-        ctx.violation(f"hash_struct collision between encodings {other!r} and {key!r}", rep)
+        report(ctx, f"hash_struct collision between encodings {other!r} and {key!r}", rep)
     if h != sha40(enc):
         hashes["not_sha512_40"] = hashes.get("not_sha512_40", 0) + 1
 
@@ -318,7 +327,7 @@ def replay_case(ctx: Ctx, x) -> None:
     case = {"x": x, "y": x, "enc": enc, "ency": enc, "dec": real_dec(enc) if enc != ERR else {"k": "err", "v": 0}}
     verdicts = validate(ctx, [case], "replay")
     if verdicts[1] != [1, 1, 1, 1, 1]:
-        ctx.violation(f"recorded (input, output) pair rejected by Bencode_Trace: {verdicts[1]}", {"x": x, "case": case})
+        report(ctx, f"recorded (input, output) pair rejected by Bencode_Trace: {verdicts[1]}", {"x": x, "case": case})
 
 
 def validate(ctx: Ctx, cases: list, what: str) -> dict:
@@ -419,17 +428,17 @@ def run(ctx: Ctx) -> None:
             ctx.distinct(r["x"])
         nrej += r["enc"] == ERR
         if v[0] != 1:
-            ctx.violation(f"recorded bencode output is not Enc(x) for x = {to_py(r['x'])!r}: "
+            report(ctx, f"recorded bencode output is not Enc(x) for x = {to_py(r['x'])!r}: "
                           f"{bytes(r['enc']) if r['enc'] != ERR else 'raised'}", {"x": r["x"], "case": r})
         elif v[1] != 1:
-            ctx.violation(f"recorded bdecode(bencode(x)) is not the canonical form of x = {to_py(r['x'])!r}: {r['dec']}",
+            report(ctx, f"recorded bdecode(bencode(x)) is not the canonical form of x = {to_py(r['x'])!r}: {r['dec']}",
                           {"x": r["x"], "case": r})
         elif v[2] != 1:
             ctx.require(False, f"a law of Bencode.tla fails on a generated structure (specification defect): {r['x']}")
         elif v[3] != 1:
             ctx.require(False, f"PairOK fails in the model for {r['x']} / {r['y']} (specification defect)")
         elif v[4] != 1:
-            ctx.violation(f"recorded bencode output is not Enc(y) for y = {to_py(r['y'])!r}", {"x": r["y"], "case": r})
+            report(ctx, f"recorded bencode output is not Enc(y) for y = {to_py(r['y'])!r}", {"x": r["y"], "case": r})
         # v[3] (model: equal encodings iff equivalent, prefix-free) together with v[0] and v[4] (the real
         # bytes of x and y are the model's) gives the pairwise law for the real encoder on this pair
     ctx.note("generated_cases", n)
@@ -447,7 +456,7 @@ def run(ctx: Ctx) -> None:
         twin = to_py(flip(r["x"]))
         et, _ = real_enc(twin)
         if et != ERR and (et != r["enc"] or hash_struct(twin) != hash_struct(obj)):
-            ctx.violation(f"encoding / hash changes under str<->bytes, list<->tuple or key order: {obj!r} vs {twin!r}",
+            report(ctx, f"encoding / hash changes under str<->bytes, list<->tuple or key order: {obj!r} vs {twin!r}",
                           {"x": r["x"], "twin": flip(r["x"])})
         check_hash(ctx, obj, r["enc"], hashes, {"x": r["x"]})
     ctx.note("hash_struct_is_sha512_40_of_encoding", hashes.get("not_sha512_40", 0) == 0)
